@@ -23,6 +23,24 @@ class Shade(enum.Enum):
   LIGHT = 2
 
 
+class Level(enum.IntEnum):
+  LOW = 1
+  HIGH = 2
+
+
+class Mode(str, enum.Enum):
+  FAST = 'fast'
+  SLOW = 'slow'
+
+
+class Celsius(float):
+  pass
+
+
+class Name(str):
+  pass
+
+
 class DictObj:
   """A dict-based object registered for serialization."""
 
@@ -40,6 +58,8 @@ try:
   serialization.register_dict_based_object(DictObj)
   serialization.register_constant('harness.props.C09', 'CONST', compare_by_identity=True)
   serialization.register_enum(Shade)
+  serialization.register_enum(Level)
+  serialization.register_enum(Mode)
 except Exception:
   pass
 
@@ -66,7 +86,7 @@ def leaf(r):
     base = bytes(r.randrange(256) for _ in range(n))
     return r.choice([base, b'\\u0041', b'\\U0001F600x', b'\\x41\\N{DASH}', b'', base + b'\\u00e9', bytes(range(256))])
   if x < 0.56:
-    return r.choice([Shade.DARK, Shade.LIGHT])
+    return r.choice([Shade.DARK, Shade.LIGHT, Level.HIGH, Mode.SLOW, Level.LOW, Celsius(21.5), Name('n')])
   if x < 0.62:
     return None
   if x < 0.68:
@@ -99,7 +119,7 @@ class Gen:
     elif x < 0.32:
       v = tuple(self.value(depth - 1) for _ in range(r.randint(0, 3)))
     elif x < 0.48:
-      keys = [r.choice(['a', 'b', 1, 2.5, (1, 's'), None, True, Shade.DARK, b'k', 'key with space'])
+      keys = [r.choice(['a', 'b', 1, 2.5, (1, 's'), None, True, Shade.DARK, Level.HIGH, Mode.FAST, b'k', 'key with space'])
               for _ in range(r.randint(0, 3))]
       v = {k: self.value(depth - 1) for k in keys}
     elif x < 0.54:
